@@ -148,11 +148,7 @@ func genHistory(r *hx.Rand, idx int, tier, mode string) *hx.Case {
 		o := op{Op: "rescale", N: n2, Perm: genPerm(r, n)}
 		if mode == "c14" {
 			o.Op = "save"
-			// Retain (a retained-checkpoints update before the artifact copy) is not generated: dropping the loaded
-			// composite checkpoint lets the garbage collector run table clean-ups, whose timing is not under the
-			// harness's control (and "exclusively owned" deletes files a neighbour still lists: reported to C09)
-			o.Fold, o.Late = r.Chance(1, 3), r.Chance(1, 2)
-			_ = r.Chance(1, 3)
+			o.Fold, o.Late, o.Retain = r.Chance(1, 3), r.Chance(1, 2), r.Chance(1, 3)
 		}
 		ops = append(ops, hx.Op(o))
 		n = n2
